@@ -40,10 +40,47 @@ func TestVerifNetns(t *testing.T) {
 		t.Fatal(err)
 	}
 	defer out.Close()
-	skip := func(why string) {
+	// Real time: on a heavily loaded machine an answer can take longer than the waiting windows
+	// below.  A run with a timing symptom (something expected did not arrive in its window) is
+	// repeated, up to three attempts in all; a defect of the implementation shows in every attempt.
+	var impl, why string
+	for attempt := 0; attempt < 3; attempt++ {
+		impl, why = nsAttempt(t)
+		if why != "" || !nsTimingSymptom(impl) {
+			break
+		}
+		t.Logf("netns attempt %d had a timing symptom: %s", attempt+1, impl)
+		time.Sleep(2 * time.Second)
+	}
+	if why != "" {
 		t.Logf("netns scenario not run: %s", why)
 		out.Line("ns 0", "skip")
+		return
 	}
+	out.Line("ns 1", impl)
+}
+
+// nsTimingSymptom: some awaited RA did not arrive within its window (or Run did not return)
+func nsTimingSymptom(impl string) bool {
+	s := " " + impl + " "
+	for _, sym := range []string{" init none ", " rs 0 ", " rs 1 0 ", " fwd -1 ", " final 0 ", " hung ", "senderr", "ip-failed"} {
+		if strings.Contains(s, sym) {
+			return true
+		}
+	}
+	// relink <autoconf> <got> <lifetime>
+	if i := strings.Index(s, " relink "); i >= 0 {
+		f := strings.Fields(s[i:])
+		if len(f) >= 3 && f[2] == "0" {
+			return true
+		}
+	}
+	return false
+}
+
+// nsAttempt: one run of the scenario; the implementation's tokens, or why it could not be run
+func nsAttempt(t *testing.T) (string, string) {
+	skip := func(why string) (string, string) { return "", why }
 	var rtr, host *net.Interface
 	for i := 0; i < 60; i++ {
 		rtr, _ = net.InterfaceByName("vf0")
@@ -54,13 +91,11 @@ func TestVerifNetns(t *testing.T) {
 		time.Sleep(100 * time.Millisecond)
 	}
 	if rtr == nil || host == nil || !nsHasLL(rtr) || !nsHasLL(host) {
-		skip("no veth pair vf0/vf1 with link-local addresses")
-		return
+		return skip("no veth pair vf0/vf1 with link-local addresses")
 	}
 	hc, hostIP, err := ndp.Listen(host, ndp.LinkLocal)
 	if err != nil {
-		skip("host socket: " + err.Error())
-		return
+		return skip("host socket: " + err.Error())
 	}
 	defer hc.Close()
 	_ = hc.SetControlMessage(ipv6.FlagDst|ipv6.FlagHopLimit, true)
@@ -268,7 +303,7 @@ func TestVerifNetns(t *testing.T) {
 	impl.S("final").B(finalSeen).N(after).S(res)
 	// restored: after Run has returned the interface's autoconfiguration has its initial value
 	impl.S("restored").S(autoconf())
-	out.Line("ns 1", impl.String())
+	return impl.String(), ""
 }
 
 func nsHasLL(ifi *net.Interface) bool {
